@@ -38,3 +38,7 @@ def define(M):
     M("C12", "global_subrs_replaced_before_save", "Lib/ufo2ft/outlineCompiler.py",
       "        cff.GlobalSubrs = globalSubrs\n",
       "        cff.GlobalSubrs = GlobalSubrsIndex()\n")
+    # C11: regression mutant of the repaired defect (8f678c5)
+    M("C11", "empty_production_name_kept", "Lib/ufo2ft/postProcessor.py",
+      "                if not valid_name or len(valid_name) > self.MAX_GLYPH_NAME_LENGTH:",
+      "                if len(valid_name) > self.MAX_GLYPH_NAME_LENGTH:")
